@@ -80,13 +80,56 @@ func c22(r *Run) {
 		}
 		// R3: close only when lastBlock.ts < min
 		cl := findEffects(fb, "call builtin.close(fv:resultChan)")
-		okk := len(cl) >= 1
+		// the channel is closed only through "lastBlock older than the minimum" or "lastBlock is genesis", and each of
+		// the two closes it at both test sites (loop top, after an emit)
+		const tsOld = "(internal/validitywindow.Block).GetTimestamp(fv:c.lastBlock) < (*sync/atomic.Int64).Load(fv:minTimestamp)"
+		const tsNew = "(*sync/atomic.Int64).Load(fv:minTimestamp) <= (internal/validitywindow.Block).GetTimestamp(fv:c.lastBlock)"
+		const atGen = "(internal/validitywindow.Block).GetHeight(fv:c.lastBlock) == 0"
+		const notGen = "(internal/validitywindow.Block).GetHeight(fv:c.lastBlock) != 0"
+		done := map[edgeKey]bool{}
+		nTS, nGen := 0, 0
+		isClose := func(i ssa.Instruction) bool {
+			for _, c := range cl {
+				if c.Ins == i {
+					return true
+				}
+			}
+			return false
+		}
+		closesAlways := true
+		for _, b := range fb.Blocks {
+			ifi, ok := b.Instrs[len(b.Instrs)-1].(*ssa.If)
+			if !ok {
+				continue
+			}
+			idx := -1
+			switch predString(ifi.Cond, true) {
+			case tsOld:
+				idx, nTS = 0, nTS+1
+			case atGen:
+				idx, nGen = 0, nGen+1
+			case tsNew:
+				idx, nTS = 1, nTS+1
+			case notGen:
+				idx, nGen = 1, nGen+1
+			}
+			if idx < 0 {
+				continue
+			}
+			done[edgeKey{b.Index, idx}] = true
+			// from the "done" edge every path closes before doing anything else (no path to a return or loop avoiding close)
+			if found, _ := pathExists(point{b.Succs[idx], 0}, func(i ssa.Instruction) bool { _, ok := i.(*ssa.Return); return ok }, isClose, nil); found {
+				closesAlways = false
+			}
+		}
+		okk := len(cl) >= 1 && nTS >= 2
 		for _, c := range cl {
-			if !hasMatch(c.Conds(), "(internal/validitywindow.Block).GetTimestamp(fv:c.lastBlock) < (*sync/atomic.Int64).Load(fv:minTimestamp)") {
+			if found, _ := pathExists(point{fb.Blocks[0], 0}, isInstr(c.Ins), nil, done); found {
 				okk = false
 			}
 		}
-		r.check(okk, "C22.R3", "FetchBlocks:close-iff-window-covered", w.rel(fb.Pos()), "", "the result channel can be closed although the oldest emitted block is not older than the minimum timestamp")
+		r.check(okk, "C22.R3", "FetchBlocks:close-iff-window-covered", w.rel(fb.Pos()), "", "the result channel can be closed although the oldest emitted block is neither older than the minimum timestamp nor genesis")
+		r.check(nGen >= 2 && closesAlways, "C22.R3", "FetchBlocks:genesis-completes", w.rel(fb.Pos()), "reaching height 0 closes the channel at both test sites", "reaching genesis does not complete the backfill: for a chain younger than the validity window the client requests height 0-1 forever and the syncer never finishes")
 	}
 
 	st := r.fn(w, "C22.R2", "(*"+pkgVW+".Syncer).Start$1")
